@@ -423,6 +423,7 @@ func WriteLock(verifDir string, ids []string) error {
 	for key, fn := range e.fns {
 		if e.hasAnyContract(fn) {
 			locals[key] = e.localNames(fn)
+			locals[key+"#params"] = e.paramNames(fn)
 		}
 	}
 	lb, _ := json.MarshalIndent(locals, "", " ")
